@@ -79,13 +79,23 @@ def check(ctx):
     ctx.trusted += ["sa/wiring_ref.json", "E1 token-type sets"]
 
 
+def type_flag(px, m):
+    """the local of specifier loop m that records 'a type specifier was seen': the flag tested by the typedef-name branch (`if <flag>: break`)"""
+    fn = px.method("CParser", m)
+    for b in ast.walk(fn):
+        if isinstance(b, ast.If) and "TYPEID" in S.unparse(b.test) and b.body and isinstance(b.body[0], ast.If) and isinstance(b.body[0].test, ast.Name) and any(isinstance(x, ast.Break) for x in b.body[0].body):
+            return b.body[0].test.id
+    raise AnalysisError(f"{m}: the typedef-name branch does not start with `if <type-seen flag>: break` (specifier-loop idiom changed)")
+
+
 def saw_type_rule(ctx, rid, px, m, br, c):
-    """the branch `br` of specifier loop `m` appends a type specifier through call `c`: it must record saw_type = True"""
-    sets = [s for s in br.body if isinstance(s, ast.Assign) and any(isinstance(tg, ast.Name) and tg.id == "saw_type" for tg in s.targets) and isinstance(s.value, ast.Constant) and s.value.value is True]
+    """the branch `br` of specifier loop `m` appends a type specifier through call `c`: it must record that a type was seen"""
+    flag = type_flag(px, m)
+    sets = [s for s in br.body if isinstance(s, ast.Assign) and any(isinstance(tg, ast.Name) and tg.id == flag for tg in s.targets) and isinstance(s.value, ast.Constant) and s.value.value is True]
     oks = bool(sets)
-    ctx.oblige(rid, f"{m}: saw_type recorded after `{S.unparse(c.args[1])[:40]}`", oks)
+    ctx.oblige(rid, f"{m}: type-seen flag recorded after `{S.unparse(c.args[1])[:40]}`", oks)
     if not oks:
-        ctx.violation(rid, f"saw_type:{m}:{S.unparse(c.args[1])[:50]}", f"{m} appends a type specifier ({S.unparse(c.args[1])[:60]}) without setting saw_type: a following typedef name is then taken as a second type specifier instead of the declared identifier "
+        ctx.violation(rid, f"saw_type:{m}:{S.unparse(c.args[1])[:50]}", f"{m} appends a type specifier ({S.unparse(c.args[1])[:60]}) without setting {flag}: a following typedef name is then taken as a second type specifier instead of the declared identifier "
                       "(e.g. `struct S T = 0;` with T a typedef name)", file=px.rel, function=f"CParser.{m}", line=c.lineno)
 
 
